@@ -168,16 +168,16 @@ Proof.
 Qed.
 
 Lemma row_step_total c st v : length c = 96%nat -> v < 128 ->
-  exists st', row_step unit unit unit (ttx_dec c) None st v = Ok st'.
+  exists st', row_step unit unit unit (ttx_cell_dec c) None st v = Ok st'.
 Proof.
   intros L Hv. unfold row_step.
   match goal with |- context [if ?c then _ else _] => destruct c end.
   - match goal with |- context [if ?c then _ else _] => destruct c end; eexists; reflexivity.
   - match goal with |- context [if ?c then _ else _] => destruct c end; [|eexists; reflexivity].
-    unfold ttx_dec. destruct (cd_decode_total c v L Hv) as (s & E). rewrite E. cbn [bind]. eexists; reflexivity.
+    unfold ttx_cell_dec. destruct (cd_decode_total c v L Hv) as (s & E). rewrite E. cbn [bind]. eexists; reflexivity.
 Qed.
 Lemma row_fold_total c row : length c = 96%nat -> cells_ok row ->
-  forall st, exists st', row_fold unit unit unit (ttx_dec c) None st row = Ok st'.
+  forall st, exists st', row_fold unit unit unit (ttx_cell_dec c) None st row = Ok st'.
 Proof.
   intros L H. induction H as [|v r Hv Hr IH]; intros st; cbn [row_fold]; [exists st; reflexivity|].
   destruct (row_step_total c st v L Hv) as (st1 & E). rewrite E. cbn [bind]. apply IH.
